@@ -151,7 +151,10 @@ func tblGen(r *rand.Rand, mode string, thorough bool) tblCase {
 		}
 		c.ValShape = 1
 		c.KeyShape = pick(r, 0, 1)
-		c.Loader = 0
+		c.Loader = pick(r, 0, 0, 1, 3) // the damage arm also reads through the skip-list and the disk index
+		if c.KeyShape == 0 && r.Intn(4) == 0 {
+			c.Loader = 2
+		}
 		c.SkipList = false
 	}
 	return c
@@ -488,7 +491,7 @@ func tblDamage(c *Ctx, tc tblCase, tape *simrt.Tape) (vs []tblV, evals int) {
 	defer simrt.Deactivate()
 	defer w.ReleaseAll()
 	open := func(onRead bool) (sstables.SSTableReaderI, error) {
-		opts := []sstables.ReadOption{sstables.ReadBasePath(dir), sstables.ReadWithKeyComparator(skiplist.BytesComparator{}), sstables.ReadBufferSizeBytes(tc.ReadBuf)}
+		opts := []sstables.ReadOption{sstables.ReadBasePath(dir), sstables.ReadWithKeyComparator(skiplist.BytesComparator{}), sstables.ReadBufferSizeBytes(tc.ReadBuf), tblLoader(tc)}
 		if onRead {
 			opts = append(opts, sstables.SkipHashCheckOnLoad(), sstables.EnableHashCheckOnReads())
 		}
